@@ -35,7 +35,7 @@ static int vp_model_htab_do (HTAB (MIR_item_t) * htab, MIR_item_t el, enum htab_
   return *slot != NULL;
 }
 static const char *vp_model_get_ctx_str (MIR_context_t ctx, const char *string) { (void) ctx; return string; } /* names are interned */
-static void vp_model_redirect_thunk (MIR_context_t ctx, void *thunk, void *to) { (void) ctx; (void) thunk; (void) to; } /* machine code */
+void vp_model_redirect_thunk (MIR_context_t ctx, void *thunk, void *to) { (void) ctx; (void) thunk; (void) to; } /* machine code */
 static void vp_ctx_setup (void) {
   MIR_context_t ctx = &vp_ctx;
   ctx->alloc = &vp_alloc;
@@ -209,7 +209,7 @@ void h_add_item (void) {
    resp. the result in the function's declared result type. */
 static MIR_val_t vp_res;
 static unsigned vp_interp_calls;
-static void vp_model_interp (MIR_context_t ctx, MIR_item_t func_item, MIR_val_t *results, size_t nargs, ...) {
+void vp_model_interp (MIR_context_t ctx, MIR_item_t func_item, MIR_val_t *results, size_t nargs, ...) {
   (void) ctx; (void) func_item; (void) nargs;
   vp_interp_calls++;
   results[0] = vp_res;
